@@ -129,6 +129,9 @@ def readonly(B, G, kind, n, h, a):
     O = B.O
     torch = B.torch
     st, P = C.make_state(B, kind, n, h, a)
+    if kind == "mixed":
+        # every parameter tensor is a parameter here, including the phase network's auxiliary bias (not held at 0)
+        P["ph"] = C.load_rbm(B, st.rbm_ph, "ph")
     script_tape(B)
     if B.symbolic:
         torch.STORE.reset(True)
@@ -249,6 +252,28 @@ def training(B, G, kind, n, h, a, bs, nbs, k=1):
     G.twin("twin_training_changes_parameters", np.asarray(finals[0][0][2], dtype=object).reshape(-1)[0], B.var("rbm_am_placeholder") if False else C.load_rbm(B, C.make_state(B, kind, n, h, a)[0].rbm_am, "am")[finals[0][0][1]].reshape(-1)[0])
 
 
+def seeding_pf(I):
+    """pathfork: for every integer seed (incl. 0 and negatives) set_random_seed forwards exactly that seed to torch.manual_seed"""
+    import torch
+    import qucumber
+
+    seed = I["seed"]
+    calls = []
+    orig = torch.manual_seed
+    torch.manual_seed = lambda s_: calls.append(s_)
+    try:
+        qucumber.set_random_seed(seed, cpu=True, gpu=False, quiet=True)
+    finally:
+        torch.manual_seed = orig
+    if len(calls) != 1:
+        return False, "torch.manual_seed called %d times for seed %s" % (len(calls), int(seed))
+    return bool(calls[0] == seed), "forwarded %r" % (calls[0],)
+
+
+def specs(tier):
+    return [dict(name="seeding-all-seeds", module="checks.c14", function="seeding_pf", kwargs={}, inputs=dict(seed=("int", -(2 ** 31), 2 ** 63 - 1)))]
+
+
 def jobs(tier):
     J = [dict(name="seeding", module="checks.c14", scenario="seeding", kwargs={})]
     cfg = [("positive", 2, 2, None), ("complex", 2, 2, None), ("mixed", 2, 1, 2)]
@@ -264,4 +289,7 @@ def jobs(tier):
 
 
 def main(tier, seed):
-    return harness.run_check(PID, tier, jobs(tier), META, seed=seed)
+    from vf import e2
+
+    ex = e2.run_specs(PID, tier, specs(tier))
+    return harness.run_check(PID, tier, jobs(tier), META, seed=seed, extra=ex)
